@@ -15,7 +15,7 @@ LEVEL = "exploration"
 RULE = ("every built-in data command x shapes of rank 1-3 incl. length-1 axes x common cell permutation x reshape to another rank; "
         "element-wise commands on rasters of 1-2.1 million cells compared window by window with the command run on the window alone; "
         "distinct by (command, n, source shape rank, target rank, has length-1 axis, dtypes, mask class)")
-REQUIRED_COUNTERS = ["shape_postconditions", "permutation_checks", "reshape_checks", "layout_checks", "model_reshape_checks", "large_rasters_checked", "window_checks", "direct_execute_cases", "same_path_rearrangements", "few_row_models", "written_files_compared"]
+REQUIRED_COUNTERS = ["large_variables_read_in_two_layouts", "shape_postconditions", "permutation_checks", "reshape_checks", "layout_checks", "model_reshape_checks", "large_rasters_checked", "window_checks", "direct_execute_cases", "same_path_rearrangements", "few_row_models", "written_files_compared"]
 ASSUMPTIONS = ["z-score commands compared with 1e-9 tolerance (float summation order), all others bit-exact on the dyadic lattice",
                "commands raising the same specific error on both sides are not judged"]
 
@@ -51,11 +51,18 @@ def cases(ctx):
     for i in range(ctx.n(3, 30)):
         yield {"kind": "big", "cmd": big.NAMES[(i * ctx.nshards + ctx.shard) % len(big.NAMES)], "shape": list(big.SHAPES[(i + ctx.shard) % len(big.SHAPES)]),
                "rseed": rng.randrange(10 ** 9), "masked": i % 4 != 3}
+    # a NetCDF variable of more than 2^20 cells stored as a grid and as a vector, both read with a MissingValue that occurs all
+    # over the variable: the same cells are missing in both
+    for i in range(ctx.n(2, 12)):
+        j = i * ctx.nshards + ctx.shard
+        yield {"kind": "bigread", "shape": [[1500, 1000], [1100, 1025], [3, 700, 501], [2049, 600]][j % 4], "rseed": rng.randrange(10 ** 9), "integer": j % 3 == 2}
     # CSV tables of one, two and zero rows: every result is a vector of that many cells
     for i in range(ctx.n(12, 600)):
-        nrows = [1, 1, 2, 1, 3][i % 5]
+        nrows = [1, 1, 2, 1, 3, 6, 12][i % 7]
         safe_ = [c for c in cmdgen.ALL if c not in cmdgen.STATS and "MeanToMid" not in c and "Curve" not in c]
         m = models.gen_model(rng, n_ops=rng.randint(1, 6), sinks=rng.random() < 0.6, table=models.gen_table(rng, nrows=nrows, exotic_names=False), cmds=safe_)
+        if nrows >= 2 and i % 2:
+            m["table"]["blank_before"] = sorted(set([1, nrows // 2, nrows - 1]))      # empty lines between the records
         yield {"kind": "csvrows", "model": m, "nrows": nrows}
     for i in range(ctx.n(3, 30)):
         j = i * ctx.nshards + ctx.shard
@@ -320,7 +327,48 @@ def _same(cmd, a, b):
     return None
 
 
+def run_bigread(ctx, case):
+    from netCDF4 import Dataset
+    shape = tuple(case["shape"])
+    n = int(numpy.prod(shape))
+    rs = numpy.random.RandomState(case["rseed"] % (2 ** 31))
+    data = rs.randint(0, 40, size=n).astype("int64" if case["integer"] else "float64")      # few distinct values: the marker occurs everywhere
+    d = ctx.scratch()
+    for name, shp in (("grid.nc", shape), ("flat.nc", (n,))):
+        with Dataset(os.path.join(d, name), "w") as ds:
+            dims = []
+            for i, e in enumerate(shp):
+                ds.createDimension("d%d" % i, e)
+                dims.append("d%d" % i)
+            v = ds.createVariable("var", "i8" if case["integer"] else "f8", tuple(dims))
+            v[:] = data.reshape(shp)
+    marker = int(data[n - 7])
+    ctx.count("large_variables_read_in_two_layouts")
+    ctx.feature(("bigread", len(shape), case["integer"]))
+    res = {}
+    for name in ("grid.nc", "flat.nc"):
+        o = arr.invoke(arr.new_program(arr.NC_LIBS, working_dir=d), "EEMSRead", "R", {"InFileName": name, "InFieldName": "var", "MissingValue": marker, "DataType": "Integer" if case["integer"] else "Float"})
+        if not o.ok:
+            ctx.fail("EEMSRead:raises-%s:large-variable" % (o.inner() or o.err), {"file": name, "shape": list(shape)})
+            return
+        res[name] = o.value
+    if tuple(res["grid.nc"].shape) != shape or tuple(res["flat.nc"].shape) != (n,):
+        ctx.fail("EEMSRead:shape:large-variable", {"got": [list(res["grid.nc"].shape), list(res["flat.nc"].shape)], "want": [list(shape), [n]]})
+        return
+    ga, fa = res["grid.nc"].reshape(-1), res["flat.nc"]
+    gm, fm = numpy.ma.getmaskarray(ga), numpy.ma.getmaskarray(fa)
+    want = data == marker
+    if not numpy.array_equal(gm, fm) or not numpy.array_equal(gm, want):
+        bad = gm != (fm if not numpy.array_equal(gm, fm) else want)
+        ctx.fail("EEMSRead:cells-not-independent:grid-and-vector-of-a-large-variable-differ", {"cells_differing": int(bad.sum()), "first": int(numpy.nonzero(bad)[0][0]), "shape": list(shape)})
+        return
+    if not numpy.array_equal(numpy.ma.getdata(ga)[~gm], data[~gm]) or not numpy.array_equal(numpy.ma.getdata(fa)[~fm], data[~fm]):
+        ctx.fail("EEMSRead:value:large-variable", {"shape": list(shape)})
+
+
 def run_case(ctx, case):
+    if case.get("kind") == "bigread":
+        return run_bigread(ctx, case)
     if case.get("kind") == "model":
         return run_model(ctx, case)
     if case.get("kind") == "big":
